@@ -80,6 +80,27 @@ Theorem C18_outline_links_consistent pages n0 f objs root :
 Proof. exact (outline_links_consistent pages n0 f objs root). Qed.
 Print Assumptions C18_outline_links_consistent.
 
+(* the same on the written objects alone: Next/Prev are inverse and stay under one parent, First/Last point to
+   children without Prev/Next, present together; the outlines dictionary likewise *)
+Theorem C18_outline_pointers_consistent pages n0 f objs root :
+  add_outlines_model pages n0 f = Some (objs, root) ->
+  let L := lookup objs in
+  Forall (fun o =>
+    (forall m, o_next o = Some m -> exists o', L m = Some o' /\ o_prev o' = Some (o_num o) /\ o_parent o' = o_parent o) /\
+    (forall m, o_prev o = Some m -> exists o', L m = Some o' /\ o_next o' = Some (o_num o) /\ o_parent o' = o_parent o) /\
+    (forall m, o_first o = Some m -> exists o', L m = Some o' /\ o_parent o' = Some (o_num o) /\ o_prev o' = None) /\
+    (forall m, o_last o = Some m -> exists o', L m = Some o' /\ o_parent o' = Some (o_num o) /\ o_next o' = None) /\
+    (o_first o = None <-> o_last o = None)) objs /\
+  match root with
+  | Some (rn, rc, rf, rl) =>
+      (forall m, rf = Some m -> exists o, L m = Some o /\ o_parent o = Some rn /\ o_prev o = None) /\
+      (forall m, rl = Some m -> exists o, L m = Some o /\ o_parent o = Some rn /\ o_next o = None) /\
+      (rf = None <-> rl = None)
+  | None => True
+  end.
+Proof. exact (outline_pointers_consistent pages n0 f objs root). Qed.
+Print Assumptions C18_outline_pointers_consistent.
+
 (* the Count arithmetic of add_outlines is ISO 32000-1 Table 153: number of descendants with only open items
    between them and the item *)
 Theorem C18_outline_count_is_visible_descendants (t : ntree) :
